@@ -404,8 +404,9 @@ func (rc *RunCtx) runJobs(jobs []JobSpec, solver string) {
 			if res != nil && (res.Wall > 20*time.Second || os.Getenv("SYMGO_VERBOSE") != "") {
 				fmt.Fprintf(os.Stderr, "job %s frontier=%v paths=%d wall=%.1fs ends=%v\n", it.j.label(), it.frontier, res.Paths, res.Wall.Seconds(), res.PathsByEnd)
 			}
-			if res != nil && overBudget(it.j) {
-				// stopped by the budget: what it explored counts, the rest is listed as not completed
+			if res != nil && !it.j.core && rc.BudgetMin > 0 {
+				// a deeper job of the thorough tier stopped by a time limit (its own or what was left of the budget):
+				// what it explored counts, the rest is listed as not completed
 				var keep []string
 				cut := false
 				for _, x := range res.Inconclusive {
